@@ -371,9 +371,12 @@ def run(ctx, eng):
                'priority fields arrive as sent')
     cm.include(ctx, eng, 'C26', {'FLOW.ping'}, 'pings are answered')
     cm.include(ctx, eng, 'C16', {'FLOW.track', 'ARITH.length',
-                                 'ORD.init-length'},
+                                 'ORD.init-length', 'OWN.method'},
                'a body sent with the matching content-length is accepted: '
-               'the receiver counts payload octets only')
+               'the receiver counts payload octets only, and what it '
+               'remembers as the request method of a stream (which decides '
+               'whether a body is expected at all) is written by the request '
+               'it sent on that stream and nothing else')
     cm.include(ctx, eng, 'C20', {'ORD.decode-first', 'FSM.layer3'},
                'every header block the peer encoded reaches the decoder, '
                'or the two compression contexts part; a frame the peer sent '
